@@ -156,11 +156,11 @@ Fixpoint sequence {A} (l : list (option A)) : option (list A) :=
   | Some x :: t => option_map (cons x) (sequence t)
   end.
 
-(* BTreeSet<&'static str>: sorted by register NAME, no duplicates.  Rank of the harness's register ids
-   (rax rdx rcx rbx rsi rdi rbp rsp r8..r15 rip) in the lexicographic order of their names
-   (r10 r11 r12 r13 r14 r15 r8 r9 rax rbp rbx rcx rdi rdx rip rsi rsp) *)
+(* BTreeSet<&'static str>: sorted by register NAME, no duplicates.  Register id = position in CONTEXT_AMD64::REGISTERS;
+   the rank of each id in the byte-wise lexicographic order of the names is REGENERATED from minidump/src/context.rs
+   (Gen.C19Check.AMD64_NAME_RANK); an id outside the table (a register the context cannot read) ranks last *)
 Definition name_rank (id : Z) : Z :=
-  nth (Z.to_nat id) [8; 13; 11; 10; 15; 12; 9; 16; 6; 7; 0; 1; 2; 3; 4; 5; 14] 99.
+  if id <? 0 then 99 else nth (Z.to_nat id) AMD64_NAME_RANK 99.
 Fixpoint insert_reg (id : Z) (l : list Z) : list Z :=
   match l with
   | [] => [id]
@@ -189,7 +189,7 @@ Inductive ip_kind :=
 Record dinstr := { di_lea : bool; di_memsize : bool; di_ops : list memoperand;
                    di_implicit : implicit_kind; di_ip : ip_kind }.
 
-Definition RSP_ID : Z := 7.
+Definition RSP_ID : Z := AMD64_RSP_ID.
 Definition plain_info (a : Z) : addr_info := {| ai_addr := a; ai_null := a =? 0 |}.
 Definition implicit_access (k : implicit_kind) (pc : pcontext) : list addr_info :=
   match k with
